@@ -59,14 +59,12 @@ impl LocalServer {
         Ok(result.map(|x| x.0).unwrap_or(NIL_VERSION_ID))
     }
 
-    fn set_latest_version_id(&mut self, version_id: VersionId) -> Result<()> {
-        let t = self.txn()?;
+    fn set_latest_version_id(t: &rusqlite::Transaction, version_id: VersionId) -> Result<()> {
         t.execute(
             "INSERT OR REPLACE INTO data (key, value) VALUES ('latest_version_id', ?)",
             params![&StoredUuid(version_id)],
         )
         .context("Update task query")?;
-        t.commit()?;
         Ok(())
     }
 
@@ -94,8 +92,7 @@ impl LocalServer {
         Ok(r)
     }
 
-    fn add_version_by_parent_version_id(&mut self, version: Version) -> Result<()> {
-        let t = self.txn()?;
+    fn add_version_by_parent_version_id(t: &rusqlite::Transaction, version: Version) -> Result<()> {
         t.execute(
             "INSERT INTO versions (version_id, parent_version_id, data) VALUES (?, ?, ?)",
             params![
@@ -104,7 +101,6 @@ impl LocalServer {
                 version.history_segment
             ],
         )?;
-        t.commit()?;
         Ok(())
     }
 }
@@ -134,16 +130,23 @@ impl Server for LocalServer {
         // invent a new ID for this version
         let version_id = Uuid::new_v4();
 
+        // the version and the pointer to it are written in one transaction: a failure or a stop
+        // between the two must not leave a version that is served but is not the latest
         #[cfg(gothenburgbitfactory_taskchampion_verif)]
         crate::verif::failpoint::hit("local:add_version:before-insert")?;
-        self.add_version_by_parent_version_id(Version {
-            version_id,
-            parent_version_id,
-            history_segment,
-        })?;
+        let t = self.txn()?;
+        Self::add_version_by_parent_version_id(
+            &t,
+            Version {
+                version_id,
+                parent_version_id,
+                history_segment,
+            },
+        )?;
         #[cfg(gothenburgbitfactory_taskchampion_verif)]
         crate::verif::failpoint::hit("local:add_version:between")?;
-        self.set_latest_version_id(version_id)?;
+        Self::set_latest_version_id(&t, version_id)?;
+        t.commit()?;
         #[cfg(gothenburgbitfactory_taskchampion_verif)]
         crate::verif::failpoint::hit("local:add_version:after-latest")?;
 
